@@ -149,6 +149,9 @@ fn main() {
                 let alpha = alphabet(&rules);
                 let mut inputs = all_inputs(&alpha[..alpha.len().min(5)], len);
                 for _ in 0..10 { let n = rng.range(len + 1, len + 5); let mut s = String::new(); for _ in 0..n { s.push_str(*rng.pick(&alpha[..])); } inputs.push(s); }
+                // C15: multi-byte characters in front of everything (`ANY`, negated predicates and searches step over them; the
+                // positions the attempt record refers to must stay on character boundaries)
+                if profile == "C15" { let extra: Vec<String> = inputs.iter().filter(|x| x.chars().count() <= 2).take(40).map(|x| format!("é{}", x)).collect(); inputs.extend(extra); inputs.push("é嗨".into()); }
                 let ins = inputs.iter().map(|x| hexs(x)).collect::<Vec<_>>().join(" ");
                 let starts: Vec<String> = rules.iter().filter(|r| r.name != "WHITESPACE" && r.name != "COMMENT").take(2).map(|r| r.name.clone()).collect();
                 for r in &starts {
